@@ -10,6 +10,7 @@ mod drive;
 mod gen;
 mod maps;
 mod modedit;
+mod nameres;
 mod replay;
 mod stacks;
 mod tables;
@@ -36,6 +37,7 @@ fn main() {
         "cards-drive" => drive::drive(rest),
         "cards-run" => util::run_cases(rest, drive::run_case),
         "host-register-names" => drive::register_names(rest),
+        "nameres-run" => util::run_cases(rest, nameres::run_case),
         "cards-show" => drive::show(rest),
         "table-replay" => util::run_cases(rest, tables::replay_case),
         "table-drive" => tables::drive(rest),
